@@ -49,4 +49,12 @@ OBLIGATIONS = [
              "servers - also when the servers left to ask are fewer than the shares still missing (k=3: one share found, one server unheard; a "
              "server can hold several shares) - (recoverability counts DISTINCT share numbers); it waits while must-query servers are pending",
         outside="the other modes; _send_more_queries itself and the order in which servers are asked; that the loop terminates"),
+    chx("answer_accounting", "C11_h", "h_answer_accounting", timeout={"quick": 120, "thorough": 900},
+        cases=[{"mode": m, "_label": m} for m in ("read", "check", "write")],
+        desc="real ServermapUpdater._do_query/_got_results/_got_signature_one_share/_check_for_done/_send_more_queries on a fake updater: two "
+             "servers (each one share, k=1, symbolic seqnums) answer and their share validations complete in ANY order (symbolic schedule), "
+             "a third server is still unasked: whenever the updater declares itself done, every answer that had arrived has been merged into "
+             "the servermap and the map's best version is the newest among the answers received; counters/outstanding sets are consistent "
+             "afterwards; MODE_CHECK does not finish with must-query servers pending",
+        outside="real share parsing and signature checks (C10); more than two answering servers; privkey fetching; update_range data"),
 ]
